@@ -88,7 +88,7 @@ const STRINGS: &[&str] = &[
     "a", "two words", "x: y", "# not a comment", "line one\nline two", "para one\n\npara two", " leading blank", "trailing blank ", "ends with newline\n", "two newlines\n\n", "  \n", "tab\tinside",
     "a very long sentence of many short words that will certainly need to be wrapped at some column far away from the start of the line", "unbreakablewordwithoutanyspacesinside_unbreakablewordwithoutanyspacesinside_unbreakable",
     "double  spaces  inside  the  text  that  is  long  enough  to  wrap  somewhere  near  here  or  there", "é日本 😀 text with multi byte characters that goes on for a while so that it folds",
-    "- looks like a list", "key: looks like a map\nsecond: line", "", "null", "123",
+    "- looks like a list", "key: looks like a map\nsecond: line", "", "null", "123", "a\rb", "cr at the end\r",
 ];
 
 /// text over an alphabet of blanks, line breaks, indicators and letters; sometimes long enough to fold,
@@ -181,6 +181,15 @@ fn has_single_break_literal(v: &V) -> bool {
         V::Seq(i) => i.iter().any(has_single_break_literal),
         V::Map(e) => e.iter().any(|(_, x)| has_single_break_literal(x)),
         V::Flow(x) | V::Commented(x, _) | V::SpaceAfter(x) => has_single_break_literal(x),
+        _ => false,
+    }
+}
+fn has_cr_literal(v: &V) -> bool {
+    match v {
+        V::Lit(s) | V::Fold(s) => s.contains('\r'),
+        V::Seq(i) => i.iter().any(has_cr_literal),
+        V::Map(e) => e.iter().any(|(_, x)| has_cr_literal(x)),
+        V::Flow(x) | V::Commented(x, _) | V::SpaceAfter(x) => has_cr_literal(x),
         _ => false,
     }
 }
@@ -368,11 +377,11 @@ pub fn run(ctx: &mut Ctx) {
                 if b != &want && !(matches!(o.empty_as_braces, false)) {
                     ctx.fail("bare-document-differs-from-value", format!("[{oname}] {bare:?} reads as {b:?}, value is {want:?}"), replay.clone());
                 } else if !eq_mod_fold(d, b, &v) {
-                    let class = if has_single_break_literal(&v) { "F49:literal-single-line-break" } else { "wrapper-changes-data" };
+                    let class = if has_single_break_literal(&v) { "F49:literal-single-line-break" } else if has_cr_literal(&v) { "F78:literal-wrapper-carriage-return" } else { "wrapper-changes-data" };
                     ctx.fail(class, format!("[{oname}] decorated {deco:?} reads as {d:?}; bare {bare:?} reads as {b:?}"), replay.clone());
                 }
             }
-            (Ok(_), Err(e)) => ctx.fail("wrapper-breaks-document", format!("[{oname}] decorated {deco:?} does not parse: {}", e.to_string().lines().next().unwrap_or("")), replay.clone()),
+            (Ok(_), Err(e)) => ctx.fail(if has_cr_literal(&v) { "F78:literal-wrapper-carriage-return" } else { "wrapper-breaks-document" }, format!("[{oname}] decorated {deco:?} does not parse: {}", e.to_string().lines().next().unwrap_or("")), replay.clone()),
             (Err(e), _) => ctx.fail("bare-document-does-not-parse", format!("[{oname}] {bare:?}: {}", e.to_string().lines().next().unwrap_or("")), replay.clone()),
         }
     }
@@ -387,6 +396,8 @@ pub fn run(ctx: &mut Ctx) {
         let t = serde_saphyr::to_string(&LitString(s.to_string())).unwrap_or_default();
         match serde_saphyr::from_str::<LitString>(&t) {
             Ok(b) if b.0 == *s => {}
+            // F78 (open): the explicit literal wrapper writes a carriage return raw (the automatic choice refuses such text)
+            other if s.contains('\r') => ctx.fail("F78:literal-wrapper-carriage-return", format!("LitString({s:?}) emitted {t:?}, read back {other:?}"), json!({"kind": "lit", "s": s})),
             other => ctx.fail("literal-wrapper-round-trip", format!("LitString({s:?}) emitted {t:?}, read back {other:?}"), json!({"kind": "lit", "s": s})),
         }
         let t = serde_saphyr::to_string(&FoldString(s.to_string())).unwrap_or_default();
@@ -395,7 +406,7 @@ pub fn run(ctx: &mut Ctx) {
             // inside folds them on reading (the documented purpose of the wrapper): recorded finding F9
             Ok(b) if b.0.trim_end_matches('\n') == s.trim_end_matches('\n') => {}
             other => {
-                let class = if s.trim_end_matches('\n').contains('\n') { "F9:explicit-fold-multi-line" } else { "folded-wrapper-round-trip" };
+                let class = if s.contains('\r') { "F78:literal-wrapper-carriage-return" } else if s.trim_end_matches('\n').contains('\n') { "F9:explicit-fold-multi-line" } else { "folded-wrapper-round-trip" };
                 ctx.fail(class, format!("FoldString({s:?}) emitted {t:?}, read back {other:?}"), json!({"kind": "fold_wrapper", "s": s}))
             }
         }
@@ -409,13 +420,13 @@ pub fn run(ctx: &mut Ctx) {
         let t = serde_saphyr::to_string(&SpaceAfter(LitString(s.to_string()))).unwrap_or_default();
         match serde_saphyr::from_str::<String>(&t) {
             Ok(b) if b == *s => {}
-            other => ctx.fail("F8:space-after-block-scalar", format!("SpaceAfter(LitString({s:?})) emitted {t:?}, read back {other:?}"), json!({"kind": "space_after", "s": s})),
+            other => ctx.fail(if s.contains('\r') { "F78:literal-wrapper-carriage-return" } else { "F8:space-after-block-scalar" }, format!("SpaceAfter(LitString({s:?})) emitted {t:?}, read back {other:?}"), json!({"kind": "space_after", "s": s})),
         }
         // ... as the last element of a wrapped sequence, and as a field followed by another one
         let t = serde_saphyr::to_string(&SpaceAfter(vec![LitString("x".into()), LitString(s.to_string())])).unwrap_or_default();
         match serde_saphyr::from_str::<Vec<String>>(&t) {
             Ok(b) if b.len() == 2 && b[1] == *s && b[0] == "x" => {}
-            other => ctx.fail("F8:space-after-block-scalar", format!("SpaceAfter([LitString(x), LitString({s:?})]) emitted {t:?}, read back {other:?}"), json!({"kind": "space_after_seq", "s": s})),
+            other => ctx.fail(if s.contains('\r') { "F78:literal-wrapper-carriage-return" } else { "F8:space-after-block-scalar" }, format!("SpaceAfter([LitString(x), LitString({s:?})]) emitted {t:?}, read back {other:?}"), json!({"kind": "space_after_seq", "s": s})),
         }
         #[derive(serde::Serialize)]
         struct Note {
@@ -426,7 +437,7 @@ pub fn run(ctx: &mut Ctx) {
         let want = Tree::Map(vec![(Tree::Str("note".into()), Tree::Str(s.to_string())), (Tree::Str("other".into()), Tree::U64(0))]);
         match serde_saphyr::from_str::<Tree>(&t) {
             Ok(b) if b == want => {}
-            other => ctx.fail(if s == "\n" { "F49:literal-single-line-break" } else { "literal-wrapper-round-trip" }, format!("{{note: SpaceAfter(LitString({s:?})), other: 0}} emitted {t:?}, read back {other:?}"), json!({"kind": "space_after_field", "s": s})),
+            other => ctx.fail(if s == "\n" { "F49:literal-single-line-break" } else if s.contains('\r') { "F78:literal-wrapper-carriage-return" } else { "literal-wrapper-round-trip" }, format!("{{note: SpaceAfter(LitString({s:?})), other: 0}} emitted {t:?}, read back {other:?}"), json!({"kind": "space_after_field", "s": s})),
         }
     }
 }
